@@ -84,16 +84,32 @@ def cls_compress_label_imm(case):
     return _mentions_label_outside_offset(line, labels)
 
 
+def _emitted_halfword(case):
+    """the 2-byte form the failing line was emitted as with -c, read from the problem text (None if it was not 2 bytes)"""
+    import re
+    msg = case.get('problem') or ''
+    m = re.search(r'with -c ([0-9a-f]+)\b', msg) or re.search(r'= ([0-9a-f]+): (?:encodes|loads)', msg)
+    if not m or len(m.group(1)) != 4:
+        return None
+    return int.from_bytes(bytes.fromhex(m.group(1)), 'little')
+
+
 def cls_compress_drops_label_imm(case):
     """KF-A (-c, value changed): the failing line is an addi / jalr (or mv-like) whose label-dependent
     immediate was 0 at decision time, so the rule chosen (c.mv, c.nop, c.jr, c.jalr) has no
-    immediate field at all"""
+    immediate field at all - the emitted halfword must be one of those forms: a compressed form that HAS an
+    immediate field carries the expression to the end and is not this finding"""
     if not case.get('compress', True):
         return False
     line = _failing_line(case)
     if _head(line) not in ('addi', 'jalr'):
         return False
-    return _mentions_label_outside_offset(line, _label_names(case))
+    if not _mentions_label_outside_offset(line, _label_names(case)):
+        return False
+    h = _emitted_halfword(case)
+    if h is None:
+        return False
+    return h == 0x0001 or (h & 3 == 2 and (h >> 13) == 4)
 
 
 def cls_program_label_imm(case):
@@ -150,6 +166,7 @@ def cls_transfer_across_align(case):
     lab = [i for i, l in enumerate(lines) if l == target + ':']
     if not at or not lab:
         return False
+    across = False
     for a in at:
         lo, hi = min(a, lab[0]), max(a, lab[0])
         for l in lines[lo + 1:hi]:
@@ -157,10 +174,30 @@ def cls_transfer_across_align(case):
             if len(t) == 2 and t[0].lower() == 'align':
                 try:
                     if int(t[1], 0) >= 4:
-                        return True
+                        across = True
                 except ValueError:
                     pass
-    return False
+    if not across:
+        return False
+    # the finding is about the reach of the form the SOURCE names.  A transfer that the assembler itself turned into its
+    # 16-bit form and that then does not reach is something else (the decision is taken on pessimistic sizes and must hold):
+    # with the failing line replaced by a transfer no rule compresses, the -c build must still be refused.
+    try:
+        from harness import progs
+        asm = progs.get_asm()
+        head = _head(line)
+        repl = '    jal x5, %s' % target if head in ('j', 'jal', 'call', 'tail') else '    beq x1, x2, %s' % target
+        out, done = [], False
+        for l in _program_lines(case):
+            if not done and l.split('#')[0].strip() == line:
+                out.append(repl)
+                done = True
+            else:
+                out.append(l)
+        res = progs.assemble_chunks(asm, '\n'.join(out) + '\n', True)
+        return res.status != 'ok'
+    except Exception:
+        return True
 
 
 def cls_transfer_to_constant(case):
